@@ -195,15 +195,42 @@ _fresh = {}
 _ROOT = os.path.dirname(os.path.dirname(os.path.dirname(os.path.abspath(__file__))))
 
 
-def fresh(j):
-    if j not in _fresh:
+def fresh(j, hashseed="0"):
+    if (j, hashseed) not in _fresh:
         out = subprocess.run([sys.executable, "-m", "vt.harness.c20", "fresh", str(j)], capture_output=True, text=True, cwd=_ROOT,
-                             env=dict(os.environ, PYTHONPATH=_ROOT + (os.pathsep + os.environ["VT_REPO"] if os.environ.get("VT_REPO") else ""), PYTHONDONTWRITEBYTECODE="1", PYTHONHASHSEED="0"))
+                             env=dict(os.environ, PYTHONPATH=_ROOT + (os.pathsep + os.environ["VT_REPO"] if os.environ.get("VT_REPO") else ""), PYTHONDONTWRITEBYTECODE="1", PYTHONHASHSEED=hashseed))
         line = [ln for ln in out.stdout.splitlines() if ln.startswith("RESULT ")]
         if not line:
             raise RuntimeError("fresh run failed: %s" % (out.stdout + out.stderr)[-600:])
-        _fresh[j] = json.loads(line[0][7:])
-    return _fresh[j]
+        _fresh[(j, hashseed)] = json.loads(line[0][7:])
+    return _fresh[(j, hashseed)]
+
+
+HASHSEEDS = ["1", "2", "3"]
+
+
+def check_determinism(j):
+    """a fresh process gives the same result whatever its string hash seed (set iteration order) is"""
+    want = fresh(j, "0")
+    for hs in HASHSEEDS:
+        got = fresh(j, hs)
+        if got != want:
+            which = [k for k in want if got.get(k) != want[k]]
+            return False, {"job": j, "hashseed": hs, "differs": which, "seed0": {k: want[k] for k in which},
+                           "this_seed": {k: got[k] for k in which}}, "fresh-result-depends-on-hash-seed:job%d:%s" % (j, ",".join(which)), True
+    return True, None, None, bool(want["cmds"])
+
+
+def h_determinism(case: int) -> bool:
+    """
+    pre: 0 <= case < NJ
+    post: _ == True
+    """
+    c = pick(case, NJ)
+    with NoTracing():
+        ok, detail, kind, nt = check_determinism(c)
+        rt.record({"determinism": c}, ok, [c] if nt else None, detail=detail, fingerprint="C20:%s" % kind)
+    return ok
 
 
 def check_sequence(seq):
@@ -271,11 +298,15 @@ def plan(tier):
     q = tier == "quick"
     return [
         dict(name="history", func="h_history", shards=16, timeout=280 if q else 2400),
+        dict(name="fresh.hashseeds", func="h_determinism", shards=4, timeout=280),
         dict(name="twin", func="h_twin", shards=1, timeout=120, expect="refuted"),
     ]
 
 
 def replay(obligation, case):
+    if "determinism" in case:
+        ok, detail, kind, _ = check_determinism(case["determinism"])
+        return {"ok": ok, "detail": detail, "fingerprint": "C20:%s" % kind}
     ok, detail, kind, _ = check_sequence(case["sequence"])
     return {"ok": ok, "detail": detail, "fingerprint": "C20:%s" % kind}
 
